@@ -36,7 +36,8 @@ def quiet():
 class Recorder:
     """Notification history per association (keyed by a small stable index)."""
 
-    def __init__(self, raising=None):
+    def __init__(self, raising=None, kind="function"):
+        self.kind = kind
         self.lock = threading.Lock()
         self.hist = {}  # id(assoc) -> list of records
         self.assocs = {}
@@ -46,7 +47,23 @@ class Recorder:
     def handlers(self):
         from pynetdicom import evt
 
-        return [(getattr(evt, n), self._make(n)) for n in NOTIF]
+        return [(getattr(evt, n), self._wrap(self._make(n))) for n in NOTIF]
+
+    def _wrap(self, f):
+        import functools
+
+        if self.kind == "partial":
+            return functools.partial(f)
+        if self.kind == "object":
+            class _Callable:
+                def __init__(self, g):
+                    self.g = g
+
+                def __call__(self, event):
+                    return self.g(event)
+
+            return _Callable(f)
+        return f
 
     def _make(self, name):
         def h(event):
@@ -182,14 +199,14 @@ def gen_scenario(rng):
     }
 
 
-def run_scenario(sc, rng, raising=None, extra_handlers=None):
+def run_scenario(sc, rng, raising=None, extra_handlers=None, kind="function"):
     """Runs one lifecycle scenario; returns dict(req=…, acc=…, leaks=…, wall=…)."""
     from pynetdicom import AE, evt
     from pynetdicom.sop_class import Verification
 
     quiet()
     before = set(pynet_threads())
-    rec_req, rec_acc = Recorder(raising), Recorder(raising)
+    rec_req, rec_acc = Recorder(raising, kind), Recorder(raising, kind)
     acc_assoc = []
     est = threading.Event()
 
@@ -306,12 +323,25 @@ def _worker(args):
     raising = None
     if raising_spec is not None:
         raising = make_raising(raising_spec)
-    try:
-        return run_scenario(sc, rng, raising=raising)
-    except Exception as exc:  # harness problem: report, never hide
-        import traceback
+    box = {}
 
-        return {"script": sc, "harness_error": traceback.format_exc()[-1500:]}
+    def body():
+        try:
+            box["res"] = run_scenario(sc, rng, raising=raising, kind=(raising_spec or {}).get("kind", "function"))
+        except Exception:  # harness problem: report, never hide
+            import traceback
+
+            box["res"] = {"script": sc, "harness_error": traceback.format_exc()[-1500:]}
+
+    # watchdog: a scenario that does not finish is a result ("hang"), never a stuck check
+    th = threading.Thread(target=body, daemon=True)
+    th.start()
+    limit = 5 * sc.get("timeouts", 1.0) + 8.0
+    th.join(limit)
+    if "res" not in box:
+        alive = [f"{type(t).__name__}:{t.name}" for t in pynet_threads() if t.is_alive()]
+        return {"script": sc, "hang": True, "limit": limit, "threads": alive}
+    return box["res"]
 
 
 def make_raising(spec):
@@ -326,8 +356,8 @@ def make_raising(spec):
 
 
 def run_many(scenarios, seed, workers=8, raising_specs=None):
-    """run scenarios in parallel; deterministic per-scenario seeds derived from `seed`"""
-    import concurrent.futures as cf
+    """run scenarios in parallel processes; deterministic per-scenario seeds derived from `seed`.
+    The pool is terminated afterwards (a hung scenario leaves spinning non-daemon threads behind)."""
     import multiprocessing as mp
 
     jobs = [
@@ -335,5 +365,9 @@ def run_many(scenarios, seed, workers=8, raising_specs=None):
         for i, sc in enumerate(scenarios)
     ]
     ctx = mp.get_context("fork")
-    with cf.ProcessPoolExecutor(max_workers=workers, mp_context=ctx) as ex:
-        return list(ex.map(_worker, jobs, chunksize=1))
+    pool = ctx.Pool(processes=workers, maxtasksperchild=40)
+    try:
+        return pool.map(_worker, jobs, chunksize=1)
+    finally:
+        pool.terminate()
+        pool.join()
